@@ -711,7 +711,7 @@ package xpath
 //@   props C15
 //@   modifies nothing
 //@   ensures result != nil
-//@ field newAxisNode.opts[](p) 
+//@ field newAxisNode.opts[](p)
 //@   requires p != nil
 //@   modifies p.*
 //@ func newVariableNode
